@@ -628,3 +628,8 @@ def _thorough_bounded():
 
 
 THOROUGH_BOUNDED = _thorough_bounded()
+
+
+# supplier units (see props/suppliers.py): the loader options are passed "through to every file they open" - by the loaders
+from props import suppliers as _S   # noqa: E402
+UNITS = _S.extend(UNITS, _S.loaders())
